@@ -7,8 +7,8 @@ HERE = os.path.dirname(os.path.abspath(__file__))
 TECH = "bounded model checking of the compiled Rust code: Kani 0.68 / CBMC 6.11 (CaDiCaL) over #[kani::proof] harnesses with kani::any() inputs"
 TECH_MIR = TECH + "; plus path-exploring symbolic execution of the rustc MIR of the real functions with z3 (mirsym)"
 MIR_ONLY = "path-exploring symbolic execution of the rustc MIR of the real functions (cargo +nightly rustc -Zunpretty=mir) with z3 deciding branch feasibility and the per-path obligations (mirsym)"
-MIRSYM = ("C01", "C11", "C04", "C19", "C18", "C02", "C08", "C09", "C05", "C12", "C20")
-MIR_ONLY_PROPS = ("C08", "C09")
+MIRSYM = ("C01", "C11", "C04", "C19", "C18", "C02", "C08", "C09", "C05", "C12", "C20", "C07")
+MIR_ONLY_PROPS = ("C07", "C08", "C09")
 
 CLAIMS = {
  "C01": ("End-to-end (mirsym): tokens -> tree -> evaluation equals the grammar's reference evaluation (precedence, '!', -a/juxtaposition, -o, ',', parentheses, short-circuit, implicit -print, -quit) for all token sequences within the bound. Inductive step (Kani) for arbitrary children: And/Or/List/Not nodes (order, short-circuit, ',' value, quit cut-off, action flag, finished callbacks), the And-builder (1-3 leaves), the is-an-action table, the implicit -print decision of build_top_level_matcher, -quit in the walk loop and across starting points.",
@@ -29,6 +29,9 @@ CLAIMS = {
  "C06": ("One inductive step of the system limiter against the kernel's execve acceptance predicate for all RLIMIT_STACK (512 KiB..2^40), environment sizes, argument counts/bytes: the strings+headroom guarantee holds; the full predicate (8-byte pointers, 6 MiB cap) is the recorded known finding F-C06.",
          "Kernel/glibc contract quoted from execve(2)/fs/exec.c, not executed. The budget formula of new_system (sysconf FFI, HashMap iteration) is copied into the harness: an edit confined to new_system is not detected. MAX_ARG_STRLEN needs a 128 KiB string: outside.",
          "4 C06"),
+ "C07": ("mirsym only: the find half and the xargs half composed at MIR level on symbolic names. process_dir + from_walkdir + the parser-built matcher for -print0 / -print / no expression + Printer::{matches,print} + PrintDelimiter's Display write, per visited entry in order, exactly the path (starting point as given, '/'-joined names) and one NUL / newline - nothing escaped, normalised or added; ByteDelimitedArgumentReader (delimiter NUL) + process_input + CommandBuilder::execute then hand exactly those byte strings, each once and in order, to Command::args.",
+         "Name bytes are symbolic over all of ASCII 1..127 without '/'; tree shapes are fixed per run (up to 6 entries, names of 1..6 bytes, depth 4); walkdir is a script (a child's path is Path::join(parent, name)); what is written goes through a port of core::fmt::write over the template bytes rustc emitted (fmt_model.py: Display for str/Cow<str> writes the bytes of the string); lossy UTF-8 conversions are the identity (true for ASCII, std's contract for valid UTF-8); the pipe is the identity on bytes; no -s/-n limits (C04). Not covered: multi-byte UTF-8 names as symbolic bytes, walkdir's own path construction, stdout buffering across processes.",
+         "4 C07"),
  "C08": ("MIR-level symbolic execution (mirsym) of the real process_dir loop, WalkEntry::from_walkdir and MultiExecMatcher (built by the real parser from -exec/-execdir cmd fixed {} +) over a scripted tree in pre- and post-order, for every script of 'fits / does not fit' verdicts and invocation outcomes: each reached path is passed to exactly one invocation, after the fixed arguments, in visit order; a batch is dispatched early only when the next path did not fit; every pending invocation has run when process_dir returns, also after -quit; -execdir batches hold entries of one directory named ./basename and run in that directory; the action is true; the status is non-zero iff an invocation failed or could not be started.",
          "argmax::Command (what fits, assumed: a fresh command line always admits one path), std::process::Command, walkdir (documented pre/post-order and skip semantics on a 5-entry tree with blanks, quotes, braces and a leading dash in names) and std::path (on concrete text) are natives/models in mirsym; 'accepted by the operating system' is argmax's business and is not covered.",
          "4 C08"),
@@ -68,7 +71,6 @@ CLAIMS = {
 }
 
 NOT_APPLICABLE = {
- "C07": "Both end points exhaust memory at two symbolic path bytes: Printer::print goes through fmt::write (formatting is the subject, so it cannot be cut) and the -0 reader through BufReader::read_until; the path in between is walkdir's. Nothing decidable remains (DESIGN.md C07).",
  "C17": "RegexMatcher is a 3-line wrapper over oniguruma (C): language membership, whole-string vs first-match and syntax tables are foreign code outside any bound CBMC finishes.",
 }
 
